@@ -41,7 +41,7 @@ def gen_ops(chk, reg, per_len, full_lens=True):
 BACKEND_CFGS = ["cpuoff", "forcesoft", "compact", "softcompact", "kuzsoft", "kuzcompact", "serpentloop"]
 
 
-def two_stage(chk, cfgs, first, invert, what):
+def two_stage(chk, cfgs, first, invert, what, norm=lambda x: x):
     """first: ops whose output feeds the inverse op built by invert(op, out); the inverse must give back the input"""
     outs, _ = chk.run_family(cfgs, first, family=what)
     for cn in cfgs:
@@ -57,7 +57,7 @@ def two_stage(chk, cfgs, first, invert, what):
             want.append(w)
         o2s, _ = chk.run_family([cn], ops2, family=what + "-inverse")
         for op, w, back in zip(ops2, want, o2s.get(cn, [])):
-            if back != w:
+            if norm(back) != w:
                 chk.violation(op[:150] + f" [{cn}]", {"kind": "direct-oracle", "config": cn, "op": op, "impl": back, "expected": w,
                                                      "oracle": "the inverse operation must return the original input"})
 
@@ -103,6 +103,31 @@ def run(chk, tier):
         other = t[1][:-3] + ("Dec" if t[0] == "enc" else "Enc")
         return f"{'dec' if t[0] == 'enc' else 'enc'} {other} {t[2]} {out}", t[3]
     two_stage(chk, ["default", "cpuoff", "forcesoft", "kuzsoft"] if quick else BACKEND_CFGS + ["default"], hops, half_inv, "halves")
+    # the round trip through the multi-block / out-of-place entry points (a decrypt that reads its *output* buffer is the
+    # identity of nothing in a buffer-to-buffer call and invisible in place — seeded `C08-twofish-dec-load-out`): batches
+    # encrypted in one call shape must decrypt in another, and the other way round
+    from .conf import SHAPES
+    sops = []
+    for e in reg:
+        if e["caps"] != "ed":
+            continue
+        hot_t = e["name"].startswith(("Aes", "Kuz"))
+        for i in range((2 if quick else 40) * (2 if hot_t else 1)):
+            k = chk.rng.bytes(e["ks"])
+            cnt = 1 + chk.rng.below(20 if hot_t else 4)
+            data = b"".join(chk.rng.bytes(e["bl"]) for _ in range(cnt))
+            sh = SHAPES[(i + len(e["name"])) % len(SHAPES)]
+            d = "enc" if i % 2 == 0 else "dec"
+            sops.append(f"{d}s {e['name']} {sh} {chk.rng.below(16)} {hx(k)} {hx(data)}")
+            chk.case(("shapes", e["name"], d, sh, hx(k), hx(data)[:48]))
+
+    def shape_inv(op, out):
+        t = op.split(" ")
+        sh2 = SHAPES[(SHAPES.index(t[2]) + 1 + len(t[4]) % 5) % len(SHAPES)]
+        return f"{'decs' if t[0] == 'encs' else 'encs'} {t[1]} {sh2} {(int(t[3]) + 5) % 16} {t[4]} {out.split(' ')[0]}", t[5]
+    # the harness appends "in=ok canary=ok" (input untouched, nothing written outside the output) to the hex result
+    two_stage(chk, ["default", "cpuoff"] if quick else ["default", "cpuoff", "forcesoft", "release"], sops, shape_inv, "shapes",
+              norm=lambda x: x.split(" ")[0])
     # the 32-bit fixsliced AES backend (the repository's file, executed through #[path]): both orders, normal and compact
     from . import fs32
     fs32.run(chk, 12 if quick else 400, oracle_native=False, per_block=False)
